@@ -80,6 +80,16 @@ func dataFor(sel string) interface{} {
 var dataSels = []string{"nil", "string", "int", "map", "emptymap", "struct", "ptr", "nilptr", "typednil", "slice", "typed"}
 
 var htmlSoup = []string{"<a", " href=\"", "\"", "'", ">", "</a>", "<b>", "</b>", "<script>", "</script>", "<style>", "</style>", "<!--", "-->", "--!>", "<textarea>", "</textarea>", "<title>", "</title", "=", "<", "</", "<my-", "<svg:", "<a:", "<a-", "&", "&#", "&amp", "javascript:", "`", "${", "}", " ", "\n", "\x00", "x", " title=", " on", "<p ", "/>", "<br>", "<img src=", "<link rel=\"", "stylesheet", "<!DOCTYPE", "<?", "<![CDATA[", "]]>", "%", "&#x", "\xff", "<a b", "<a b=", "<a b=c", "<a b='", "</script ", "<iframe srcdoc=\"", "<input value=", "\\", "<SCRIPT>", "</TEXTAREA>"}
+var longRuns = func() []string {
+	var out []string
+	for _, u := range []string{string(rune(0x23a)), string(rune(0x23e)), "\xff", string(rune(0x130)), "\xc3"} {
+		for _, n := range []int{8, 30, 100, 300} {
+			out = append(out, strings.Repeat(u, n))
+		}
+	}
+	return out
+}()
+
 var actions = []string{"{{.V}}", "{{.}}", "{{.C}}", "{{.L}}", "{{.M.K}}", "{{.Nil}}", "{{.Nil.V}}", "{{.Next.V}}", "{{.Err}}", "{{.Panic}}", "{{.PtrMethod}}", "{{.Arg \"x\"}}", "{{.Missing}}", "{{index .L 0}}", "{{index .L 9}}", "{{len .L}}", "{{printf \"%s\" .V}}", "{{print .V .C}}", "{{println}}", "{{.V | html}}", "{{.V | urlquery}}", "{{html .V | print}}", "{{.V | print | html}}", "{{call .F}}", "{{call .V}}", "{{$x := .V}}", "{{$x := .V}}{{$x}}", "{{$}}", "{{/* c */}}", "{{- .V -}}", "{{-  .V}}", "{{.V  -}}", "{{\"lit\"}}", "{{1}}", "{{nil}}", "{{true}}", "{{not .C}}", "{{and .C .V}}", "{{or .Nil .V}}", "{{eq .V \"a\"}}", "{{lt 1 .V}}", "{{slice .V 1}}", "{{js .V}}", "{{template \"t\" .}}", "{{template \"t\"}}", "{{template \"u\" .}}", "{{template \"self\" .}}", "{{block \"b\" .}}in{{.V}}{{end}}", "{{break}}", "{{continue}}", "{{.V.X}}", "{{(.V)}}", "{{(print .V).X}}", "{{with $y := .V}}{{$y}}{{end}}"}
 var defines = []string{`{{define "leaf"}}<u>{{.}}</u>{{end}}`, `{{define "t"}}<i>{{.}}</i>{{end}}`, `{{define "t"}}{{.V}}{{end}}`, `{{define "t"}}<a href="{{end}}`, `{{define "t"}}{{end}}`, `{{define "u"}}{{template "t" .}}{{end}}`, `{{define "self"}}{{with .Next}}{{template "self" .}}{{end}}x{{end}}`, `{{define "self"}}{{if .C}}{{template "self" .Next}}{{end}}{{end}}`, `{{define "b"}}redefined{{end}}`, `{{define "main"}}m{{end}}`}
 
@@ -93,7 +103,11 @@ func genBody(t *rapid.T, depth int) string {
 		}
 		switch k := rapid.IntRange(0, max).Draw(t, "k"); {
 		case k <= 2:
-			b.WriteString(rapid.SampledFrom(htmlSoup).Draw(t, "html"))
+			if rapid.IntRange(0, 24).Draw(t, "long") == 0 {
+				b.WriteString(rapid.SampledFrom([]string{"<title>", "<script>", "<textarea>", "<style>", ""}).Draw(t, "lopen") + rapid.SampledFrom(longRuns).Draw(t, "longrun") + rapid.SampledFrom([]string{"</title>", "</script>", "</textarea>", "</style>", ""}).Draw(t, "lclose"))
+			} else {
+				b.WriteString(rapid.SampledFrom(htmlSoup).Draw(t, "html"))
+			}
 		case k <= 5:
 			b.WriteString(rapid.SampledFrom(actions).Draw(t, "action"))
 		case k == 6:
